@@ -76,7 +76,24 @@ def cV(obj):
         return "(VL " + clist([cV(o) for o in obj]) + ")"
     if isinstance(obj, Err):
         return f"(VErr {cz(obj.code)})"
+    if isinstance(obj, RLE):
+        return cV(obj.pairs())
     raise TypeError(f"cannot encode {obj!r}")
+
+
+class RLE:
+    """bytes compared run-length encoded (model side: VR)"""
+    def __init__(self, b):
+        self.b = bytes(b)
+
+    def pairs(self):
+        out = []
+        for x in self.b:
+            if out and out[-1][0] == x:
+                out[-1][1] += 1
+            else:
+                out.append([x, 1])
+        return out
 
 
 class Err:
@@ -101,6 +118,8 @@ def jsonable(o):
         return {"hex": bytes(o).hex()}
     if isinstance(o, Err):
         return {"error": o.code, "what": o.what}
+    if isinstance(o, RLE):
+        return {"rle": o.pairs()[:40]}
     if isinstance(o, (list, tuple)):
         return [jsonable(x) for x in o]
     if isinstance(o, dict):
@@ -165,14 +184,15 @@ def regenerate():
     return gen_consts.generate(REPO, GEN)
 
 
-def build(target):
-    """make one .vo (with its dependency cone).  Returns (ok, log)."""
+def build(target, extra=()):
+    """make one .vo (with its dependency cone) plus the correspondence
+    modules.  Returns (ok, log)."""
     with BuildLock():
         ensure_makefile()
         vo = os.path.join(COQ, target)
         if os.path.exists(vo):
             os.remove(vo)  # always re-check the property file itself
-        rc, out = sh(f"timeout 1500 make -j8 {target}", timeout=1600)
+        rc, out = sh(f"timeout 1500 make -j8 {target} {' '.join(extra)}", timeout=1600)
     return rc == 0, out
 
 
@@ -361,7 +381,8 @@ class Check:
             gen_info = {}
             broken.append(("generated-model", f"translator failed: {e!r}"))
         # 2. proofs
-        ok, log = build(self.props_file.replace(".v", ".vo"))
+        ok, log = build(self.props_file.replace(".v", ".vo"),
+                        [m.replace(".", "/") + ".vo" for m in self.corr_imports])
         thms = theorems_of(self.props_file)
         assumptions = parse_assumptions(log)
         axioms = sorted({a for l in assumptions for a in l})
